@@ -208,7 +208,11 @@ def check_aperture(case, ctx):
     clsname, params = AP_KINDS[case['kind']]
     cls = getattr(pa, clsname)
     params = dict(params)
-    ap = cls(POS_FORMS[case['pos0'] % len(POS_FORMS)], **params)
+    # positions are handed over as a float64 array that the caller keeps
+    # (and later modifies in place): the aperture must own its coordinates
+    src = np.array(POS_FORMS[case['pos0'] % len(POS_FORMS)], dtype=float)
+    logical = src.copy()
+    ap = cls(src, **params)
     data = np.arange(12 * 12, dtype=float).reshape(12, 12) + 1
     names = [n for n in ap._params if n != 'positions']
     nassign = 0
@@ -232,6 +236,14 @@ def check_aperture(case, ctx):
                                 f'but a fresh {clsname}({cur}) gives '
                                 f'{exp!r:.200}', what=what)
             hist.append(('read', what))
+        elif op[0] == 'poke':
+            src += 0.75
+            if not np.array_equal(np.asarray(ap.positions), logical):
+                raise Violation('positions_aliased',
+                                f'{clsname}: modifying the array that was passed '
+                                f'as positions moved the aperture to '
+                                f'{np.asarray(ap.positions).tolist()} (after {hist})')
+            hist.append(('poke',))
         elif op[0] == 'set':
             name = names[op[1] % len(names)]
             f = 0.6 + 0.1 * (op[2] % 9)     # 0.6 .. 1.4
@@ -254,7 +266,9 @@ def check_aperture(case, ctx):
             old_scalar = ap.isscalar if ('isscalar' in ap.__dict__) else None
             newpos = POS_FORMS[op[1] % len(POS_FORMS)]
             before = np.atleast_2d(ap.positions).shape
-            ap.positions = newpos
+            src = np.array(newpos, dtype=float)
+            logical = src.copy()
+            ap.positions = src
             if np.atleast_2d(np.asarray(newpos)).shape != before or \
                     (np.asarray(newpos).ndim == 1) != bool(old_scalar):
                 changed_shape = True
@@ -268,7 +282,8 @@ def check_aperture(case, ctx):
 ap_ops = st.one_of(
     st.tuples(st.just('read'), st.integers(0, 40)),
     st.tuples(st.just('set'), st.integers(0, 40), st.integers(0, 40)),
-    st.tuples(st.just('positions'), st.integers(0, 40)))
+    st.tuples(st.just('positions'), st.integers(0, 40)),
+    st.tuples(st.just('poke')))
 
 
 @st.composite
